@@ -64,7 +64,7 @@ const PUNCT: [(&str, &str); 25] = [
     ("%", "Percent"),
 ];
 
-const ILLEGAL: [&str; 14] = ["§", "#", "@", "&", "|", "'", "$", "~", "?", ":", "\\", "`", "№", "٣"];
+const ILLEGAL: [&str; 19] = ["§", "#", "@", "&", "|", "'", "$", "~", "?", ":", "\\", "`", "№", "٣", "\u{0}", "\u{8}", "\u{1b}", "\u{1f}", "\u{7f}"];
 
 const IDENT_START: [&str; 12] = ["a", "z", "A", "_", "é", "ß", "λ", "ж", "名", "x", "j", "s"];
 const IDENT_CONT: [&str; 14] = ["a", "Z", "_", "0", "9", "é", "λ", "名", "٣", "1", "n", "e", "t", "o"];
@@ -317,6 +317,12 @@ fn check_nodrop(text: &str) -> Result<(), String> {
 }
 
 pub fn replay(case: &serde_json::Value) -> Option<Violation> {
+    if case.get("kind").and_then(|k| k.as_str()) == Some("cli-file") {
+        return crate::props::c01::cli_file_case(case.get("text")?.as_str()?).err().map(|mut v| {
+            v.property = "C08".into();
+            v
+        });
+    }
     if let Some(raw) = case.get("raw").and_then(|x| x.as_str()) {
         return check_string(raw).err().map(|(c, e, g)| viol("replay", &c, case.clone(), e, g));
     }
@@ -437,6 +443,8 @@ pub fn run(ctx: &Ctx) -> Report {
     let stmts = ["print(1)", "stel x = 2", "x", "f(1, 2)", "als ja { 1 }"];
     let mut bad: Vec<String> = ILLEGAL.iter().map(|s| s.to_string()).collect();
     bad.extend(["\"abc", "\"a\\\"", "\"", "& &", "| |"].iter().map(|s| s.to_string()));
+    // every control character that is not one of the six blanks (and DEL, and two invisible format characters that are not blanks either)
+    bad.extend((0u32..0x20).filter(|c| ![0x09, 0x0A, 0x0B, 0x0C, 0x0D].contains(c)).chain([0x7F, 0x200B, 0xFEFF, 0xA0]).filter_map(char::from_u32).map(|c| c.to_string()));
     // a token that cannot stand there must be reported as well, not taken for the end of the program
     bad.extend(["}", ")", "]", ",", "} }", "= ="].iter().map(|s| s.to_string()));
     for a in stmts {
@@ -454,5 +462,29 @@ pub fn run(ctx: &Ctx) -> Report {
         }
     }
     rep.sample(json!({"nodrop": "print(1) § print(2)", "expected": "error"}));
+    // (5) literals on their way through the command-line program: a text literal in a FILE holds exactly the characters between
+    // its quotes, whatever they are (line ends of any kind, tabs, NUL); the program given the file must show what the library
+    // evaluates for the same text
+    if std::env::var("NLV_NO_CLI").is_err() {
+        let pieces = ["\r\n", "\n", "\r", "\t", "\u{0}", "\u{85}", "\u{2028}", "a", "é", " ", "\\\\", "\\n", "\\\""];
+        let mut runner = crate::tape::runner(ctx.seed.wrapping_mul(32_452_843), 1);
+        use proptest::prelude::RngCore;
+        for k in 0..ctx.pick(120u32, 3_000u32) {
+            let mut b = [0u8; 8];
+            runner.rng().fill_bytes(&mut b);
+            let n = 1 + (b[0] as usize) % 6;
+            let raw: String = (0..n).map(|j| pieces[(b[1 + j] as usize * pieces.len()) >> 8]).collect();
+            let sep = ["\r\n", "\n", "; ", "\r"][k as usize % 4];
+            let text = format!("stel t = \"{raw}\"{sep}print(\"{{}}\", lengte(t)){sep}t");
+            rep.eval();
+            rep.count("literals-through-the-command-line");
+            rep.nontrivial(&text);
+            if let Err(mut v) = crate::props::c01::cli_file_case(&text) {
+                v.property = "C08".into();
+                rep.violation(v);
+                break;
+            }
+        }
+    }
     rep
 }
